@@ -153,6 +153,33 @@ def _post(ctx, out, spec, axes, atoms, expect_kind):
         ok = isinstance(out, (AbsArr, np.ndarray, SymArray))
         ctx.obligations.append(dict(kind="post-type", text="returns an array on this path", status="discharged" if ok else "refuted", backend="structural", detail="" if ok else "got %s" % type(out).__name__))
         return
+    if isinstance(spec, dict):
+        # an object-valued result: each named attribute against its specification (arrays by _post, scalars / identities by equality)
+        import types
+
+        if not isinstance(out, types.SimpleNamespace):
+            ctx.obligations.append(dict(kind="post-type", text="result is an object with attributes %s" % sorted(spec), status="undecided", backend="structural-mismatch", detail="got %s" % type(out).__name__))
+            return
+        for name in sorted(spec):
+            want, ax = spec[name]
+            got = getattr(out, name, None)
+            if isinstance(want, SymArray):
+                _post(ctx, got, want, ax, atoms, expect_kind)
+            elif ax == "is":
+                ok = got is want
+                ctx.obligations.append(dict(kind="post-type", text="result.%s is the very object given" % name, status="discharged" if ok else "undecided", backend="structural" if ok else "structural-mismatch"))
+            else:
+                res = exprs_equal(ctx, got, want, minimise=atoms)
+                ctx.obligations.append(dict(kind="post-shape", text="result.%s == %s" % (name, want), **res))
+        return
+    from .interp import AbsArr as _AbsArr
+
+    if isinstance(out, _AbsArr) and isinstance(spec, SymArray) and expect_kind != "abstract":
+        tab = out.tabulated()
+        if tab is None:
+            ctx.obligations.append(dict(kind="scaffold-subset", text="the result array is not written completely by tabulation loops", status="undecided", backend="-"))
+            return
+        out = tab
     if isinstance(spec, tuple) and spec and spec[0] == "symlist":
         # a list of symbolic length: same length, and the element at a fresh universally quantified position against its specification
         from .sym import SymList
